@@ -298,3 +298,63 @@ Proof.
   replace (1 - INR k * h - cos Phi) with (1 - cos Phi - INR k * h) by ring.
   replace (1 / INR m) with (h / 2) by (unfold h; field; lra). exact Hd.
 Qed.
+
+(* ------------------------------ three-uniform-samples grid ("quaternion" method): u_1 *)
+(* every (u_1, u_2, u_3) node is a grid point *)
+Lemma three_uniform_in n u1 u2 u3 :
+  In u1 (linspace ROps (c0 ROps) (c1 ROps) n true) ->
+  In u2 (linspace ROps (c0 ROps) (c1 ROps) n false) ->
+  In u3 (linspace ROps (c0 ROps) (c1 ROps) n false) ->
+  In (three_uniform_point ROps u1 u2 u3) (three_uniform_grid ROps n).
+Proof.
+  intros H1 H2 H3. unfold three_uniform_grid, three_uniform_mesh.
+  apply in_flat_map. exists u2. split; [exact H2|].
+  apply in_flat_map. exists u1. split; [exact H1|].
+  apply (in_map (fun u => three_uniform_point ROps u1 u2 u)). exact H3.
+Qed.
+
+(* u_1 = linspace(0, 1, n, endpoint=True): the nodes k / (n - 1), k = 0 .. n - 1 *)
+Lemma three_uniform_u1_node n k : (2 <= n)%nat -> (k <= n - 1)%nat ->
+  In (INR k * (1 / INR (n - 1))) (linspace ROps (c0 ROps) (c1 ROps) n true).
+Proof.
+  intros Hn Hk.
+  pose proof (linspace_closed_in 0 1 (n - 1) k ltac:(lia) Hk) as H.
+  replace (S (n - 1)) with n in H by lia.
+  replace (0 + INR k * ((1 - 0) / INR (n - 1))) with (INR k * (1 / INR (n - 1))) in H
+    by (unfold Rdiv; ring).
+  unfold c0, c1. change (o_ofZ ROps 0) with 0. change (o_ofZ ROps 1) with 1. exact H.
+Qed.
+
+(* both sheets u_1 = 0 (rotations about e1) and u_1 = 1 (rotations by pi about axes in the
+   e2-e3 plane) belong to the grid for every (u_2, u_3) node: endpoint=True for u_1 *)
+Lemma three_uniform_reaches_sheets n u2 u3 : (2 <= n)%nat ->
+  In u2 (linspace ROps (c0 ROps) (c1 ROps) n false) ->
+  In u3 (linspace ROps (c0 ROps) (c1 ROps) n false) ->
+  In (three_uniform_point ROps 0 u2 u3) (three_uniform_grid ROps n) /\
+  In (three_uniform_point ROps 1 u2 u3) (three_uniform_grid ROps n).
+Proof.
+  intros Hn H2 H3.
+  assert (HM : 0 < INR (n - 1)) by (apply lt_0_INR; lia).
+  split; apply three_uniform_in; try assumption.
+  - pose proof (three_uniform_u1_node n 0 Hn ltac:(lia)) as H. simpl INR in H.
+    replace (0 * (1 / INR (n - 1))) with 0 in H by ring. exact H.
+  - pose proof (three_uniform_u1_node n (n - 1) Hn ltac:(lia)) as H.
+    replace (INR (n - 1) * (1 / INR (n - 1))) with 1 in H by (field; lra). exact H.
+Qed.
+
+(* no hole in u_1: every u in [0, 1] is within half a step 1 / (2 (n - 1)) of a node,
+   uniformly up to both ends *)
+Lemma three_uniform_u1_covers n u : (2 <= n)%nat -> 0 <= u <= 1 ->
+  exists u1, In u1 (linspace ROps (c0 ROps) (c1 ROps) n true) /\ 0 <= u1 <= 1 /\
+             Rabs (u - u1) <= 1 / (2 * INR (n - 1)).
+Proof.
+  intros Hn Hu.
+  assert (HM : 0 < INR (n - 1)) by (apply lt_0_INR; lia).
+  set (h := 1 / INR (n - 1)). assert (Hh0 : 0 < h) by (unfold h; apply Rdiv_lt_0_compat; lra).
+  assert (Em : INR (n - 1) * h = 1) by (unfold h; field; lra).
+  destruct (nearest_grid h (n - 1) u Hh0) as [k [Hk Hd]]; [rewrite Em; lra|].
+  exists (INR k * h). split; [apply three_uniform_u1_node; assumption|]. split.
+  - assert (0 <= INR k) by apply pos_INR. assert (INR k <= INR (n - 1)) by (apply le_INR; exact Hk).
+    split; nra.
+  - replace (1 / (2 * INR (n - 1))) with (h / 2) by (unfold h; field; lra). exact Hd.
+Qed.
